@@ -138,6 +138,17 @@ def generate(seed, tier):
         # few storage operations between the holder's TOC rename and the end of its clean-up
         rec["fe_args"] = {"delay": random.Random("%s/delay" % seed).choice((mrng.choice((0.05, 0.25)), 0.002, 0.0005)), "hold": mrng.choice((0.01, 0.3, 1.0)),
                           "blocker_docs": [dg.doc(key=k_) for k_ in bkeys]}
+        # half of the async runs start from an index that already holds documents (two segments, one
+        # deleted document) and delete by query; the lock holder may optimize, which renumbers documents:
+        # a delete buffered by the AsyncWriter has to be resolved when it is replayed
+        br = random.Random("%s/base" % seed)
+        if br.random() < 0.5:
+            rec["base"] = [[dg.doc(key=50 + i) for i in range(br.randint(2, 4))],
+                           [dg.doc(key=60 + i) for i in range(br.randint(1, 3))]]
+            rec["fe_args"]["blocker_merge"] = br.choice(("none", "optimize", "optimize"))
+            for tx in rec["txs"]:
+                if br.random() < 0.6:
+                    tx["body"].insert(br.randrange(len(tx["body"]) + 1), ["del_query", ["term", "t", br.choice(cfg.vocab)]])
     return rec
 
 
@@ -268,6 +279,9 @@ class AsyncFront(object):
                             w.update_document(**op[1])
                         elif op[0] == "del_term":
                             w.delete_by_term(op[1], op[2])
+                        elif op[0] == "del_query":
+                            from whoosim import queries as Q
+                            w.delete_by_query(Q.build(op[1], s.model.schema))
                         elif op[0] == "sleep":
                             k.sleep(op[1])
                             continue
@@ -306,6 +320,10 @@ class AsyncFront(object):
                         mw.update(op[1])
                     elif op[0] == "del_term":
                         mw.delete_by_term(op[1], op[2])
+                    elif op[0] == "del_query":
+                        from whoosim import queries as Q
+                        mw.delete_uids(Q.evaluate(op[1], mw.live(), mw.schema))
+                        s.count("async_delete_by_query")
                 mw.commit()
                 s.count("commits")
                 if s.blocker_done or self.record["frontend"] == "async_free":
@@ -336,7 +354,10 @@ class Blocker(object):
             for d in a.get("blocker_docs", []):
                 w.add_document(**d)
             s.k.sleep(a.get("hold", 0.3))
-            w.commit(merge=False)
+            if a.get("blocker_merge") == "optimize":
+                w.commit(optimize=True)
+            else:
+                w.commit(merge=False)
             s.blocker_has_lock = False
             s.blocker_done = True
         except Violation as v:
@@ -510,6 +531,20 @@ def execute(record, trace=False):
     try:
         try:
             s.setup_index()
+            if record.get("base"):
+                # the index the run starts from: two segments, the first with a deleted document
+                bix = s.actor_storage().open_index()
+                for bi, docs in enumerate(record["base"]):
+                    w = bix.writer(**s.cfg.writer_kwargs())
+                    mw = s.model.writer()
+                    if bi == 1:
+                        w.delete_by_term("k", record["base"][0][0]["k"])
+                        mw.delete_by_term("k", record["base"][0][0]["k"])
+                    for d in docs:
+                        w.add_document(**d)
+                        mw.add(d)
+                    w.commit(merge=False)
+                    mw.commit()
             if record.get("lines"):
                 s.k.enable_lines(*record["lines"])
             actors = []
